@@ -26,6 +26,7 @@ import (
 	"os"
 	"sort"
 	"testing"
+	"time"
 
 	"github.com/aergoio/aergo/v2/account/key"
 	keycrypto "github.com/aergoio/aergo/v2/account/key/crypto"
@@ -743,7 +744,17 @@ func (e *vlEnv) runCase(w *bufio.Writer) {
 			if scs0, e0 := statedb.GetSystemAccountState(cs.sdb.OpenNewStateDB(cs.sdb.GetRoot())); e0 == nil {
 				system.InitVotingPowerRank(scs0)
 			}
-			err := cs.addBlock(nb, nil, testPeer)
+			// watchdog: a validator that never answers (e.g. verifier goroutines blocked on stale results) is a result
+			var err error
+			doneCh := make(chan error, 1)
+			go func() { doneCh <- cs.addBlock(nb, nil, testPeer) }()
+			select {
+			case err = <-doneCh:
+			case <-time.After(30 * time.Second):
+				end.AddErr = "HANG: cs.addBlock did not return within 30s"
+				emit(end)
+				return
+			}
 			nowBest, _ := cs.GetBestBlock()
 			end.BestNo = nowBest.BlockNo()
 			if err != nil {
